@@ -635,6 +635,14 @@ evaluate() const {
           return Result(r1.as_boolean());
 
         } else if (stype->_type == CPPSimpleType::T_int) {
+          if (stype->_flags & CPPSimpleType::F_short) {
+            // A cast to a short type narrows the value to 16 bits.
+            if (stype->_flags & CPPSimpleType::F_unsigned) {
+              return Result((int)(unsigned short)r1.as_integer());
+            } else {
+              return Result((int)(short)r1.as_integer());
+            }
+          }
           return Result(r1.as_integer());
 
         } else if (stype->_type == CPPSimpleType::T_float ||
